@@ -41,7 +41,7 @@ class Notifications(object):
         common = set(tmp).intersection(tbp)
         if common:
             height = max(common)
-        elif tmp and max(tmp) == self._highest_block:
+        elif self._highest_block in tmp:
             height = self._highest_block
         else:
             # Either we are processing a block and waiting for it to
@@ -68,6 +68,11 @@ class Notifications(object):
         await self._maybe_notify()
 
     async def on_block(self, touched, height):
+        # A reorg can take the chain to a lower height; what is still pending for the
+        # abandoned heights is reported at this one
+        for pending in (self._touched_mp, self._touched_bp):
+            for old in [h for h in pending if h > height]:
+                touched.update(pending.pop(old))
         self._touched_bp.setdefault(height, set()).update(touched)
         self._highest_block = height
         await self._maybe_notify()
